@@ -47,6 +47,10 @@ type Converter struct {
 	typ      types.Type
 	Methods  []*Method
 
+	// outputPackageSet reports that output:package was configured (on the converter or
+	// globally) and therefore must not be inferred.
+	outputPackageSet bool
+
 	Location string
 }
 
@@ -119,6 +123,12 @@ func resolveOutputPackage(ctx *context, c *Converter) {
 	targetPackage, err := resolvePackage(c.FileName, c.Package, c.OutputFile)
 	if err != nil {
 		return
+	}
+
+	if c.typ == nil && !c.outputPackageSet && targetPackage != c.Package {
+		// goverter:variables default to the declaring package. With an output:file in
+		// another directory that package is wrong: infer it like for interfaces.
+		c.OutputPackagePath, c.OutputPackageName = "", ""
 	}
 
 	if c.OutputPackagePath == "" {
@@ -206,6 +216,7 @@ func parseConverterLine(ctx *context, c *Converter, value string) (err error) {
 			return fmt.Errorf("unsupported format for goverter:converter")
 		}
 	case "output:package":
+		c.outputPackageSet = true
 		c.OutputPackageName = ""
 		var pkg string
 		pkg, err = parse.String(rest)
